@@ -125,6 +125,10 @@ class Ctx:
         return d
 
     def run(self, argv, cwd=None, timeout=600, env=None, check=True, stdin=None):
+        # temporary files of child processes (os.MkdirTemp in the Go drivers, go build work dirs) live under this
+        # check's scratch directory, which is removed at the end - also when a child dies without cleaning up
+        env = dict(os.environ if env is None else env)
+        env['TMPDIR'] = self.sub('tmp')
         try:
             p = subprocess.run(argv, cwd=cwd or self.scratch, timeout=timeout, env=env,
                                stdout=subprocess.PIPE, stderr=subprocess.STDOUT, text=True, input=stdin)
